@@ -57,6 +57,7 @@ type C06Result struct {
 	Samples    []C06Case      `json:"samples,omitempty"`
 	SampleOut  []string       `json:"sample_outcomes,omitempty"`
 	Verdicts   []C06Verdict   `json:"verdicts,omitempty"` // explicit jobs: one per case
+	Digest     uint64         `json:"digest"`             // running digest over every case's device log and outcome
 }
 
 type C06Verdict struct {
@@ -205,6 +206,10 @@ func (r *c06run) one(c C06Case) {
 		res.Probes["hundred_stalls"]++
 	}
 	relaxFam := c.Family == "boundary" || c.Family == "stalls" || c.Family == "combo"
+	for _, ch := range []byte(o.Out + "|" + o.Err + "|" + o.Panic) {
+		h = fnv(h, uint64(ch))
+	}
+	res.Digest = fnv(res.Digest, h)
 	class, detail := r.judge(&c, &o, relaxFam)
 	if class != "" {
 		res.ViolCount++
